@@ -1321,7 +1321,9 @@ class PRUDPServerStream:
 			client.configure(packet.max_substream_id, packet.supported_functions, packet.minor_version)
 			client.remote(packet.connection_signature, packet.session_id)
 		
-		response = self.process_login_request(packet.payload, client)
+		# A retransmitted CONNECT packet must not log an established client in
+		# again: that would restart its stream ciphers in the middle of a session.
+		response = self.process_login_request(packet.payload, client, key not in self.clients)
 		
 		if key not in self.clients:
 			self.clients[key] = client
@@ -1343,7 +1345,7 @@ class PRUDPServerStream:
 		ack.signature = self.packet_encoder.calc_packet_signature(ack, b"", packet.connection_signature)
 		await self.transport.send(ack, addr)
 	
-	def process_login_request(self, data, client):
+	def process_login_request(self, data, client, login=True):
 		if self.key is None:
 			return b""
 		
@@ -1365,7 +1367,9 @@ class PRUDPServerStream:
 		if stream.pid() != ticket.source:
 			raise ValueError("Invalid pid in kerberos ticket")
 		
-		client.login(ticket.source, stream.u32(), ticket.session_key)
+		cid = stream.u32()
+		if login:
+			client.login(ticket.source, cid, ticket.session_key)
 		
 		check_value = stream.u32()
 		return struct.pack("<II", 4, (check_value + 1) & 0xFFFFFFFF)
